@@ -1,9 +1,11 @@
 From Coq Require Import Extraction ExtrOcamlBasic.
+Require NixV.Units.UnitsModel.
 Require Import NixV.Base.Prelude NixV.Base.F64 NixV.Gen.GenDimensions NixV.Access.Retrieval NixV.Access.RetrievalSpec.
 Extraction Language OCaml.
 Extraction "model_C06.ml" current_behaviour code_today repaired_except_pinned repaired
   getOffsetAndCount_tag taggedData_tag taggedData_tag_ref featureData_tag
   getOffsetAndCount_mtag getOffsetAndCount_mtag1 taggedData_mtag_ref taggedData_mtag1_ref featureData_mtag featureData_mtag1
-  default_match_retrieval default_match_offcnt default_match_deprecated view_ids
+  default_match_retrieval default_match_offcnt default_match_deprecated frame_dim_unit getDimensionUnit positionInData positionAndExtentInData
+  positionToIndex_one positionToIndex_vec UnitsModel.unitSanitizer view_ids
   spec_tag_view spec_mtag_view spec_tag_feature spec_mtag_feature spec_mtag_views spec_mtag_offcnts spec_mtag_features answers mtag_npos
   fis_finite ofZ.
